@@ -66,6 +66,36 @@ fn main() {
             }
             std::process::exit(rep.finish());
         }
+        "fuzzcase" => {
+            // avh fuzzcase <PROPERTY> <part> <artifact>: turn a libFuzzer artifact into a shrunk
+            // replay file (the artifact's bytes are the generator's random stream)
+            if args.len() < 5 {
+                usage();
+            }
+            let data = std::fs::read(&args[4]).unwrap_or_default();
+            let rep = Report::new(&property, Tier::Thorough, 0);
+            for p in &parts {
+                if p.name() == args[3] {
+                    match p.fuzz_to_replay(&data, &rep) {
+                        Some((path, f)) => {
+                            if rep.is_known_open(&f.sig) {
+                                println!("KNOWN-FINDING: property={} [{}] (found by the fuzzer)", property, f.sig);
+                                std::process::exit(0);
+                            }
+                            println!("VIOLATION property={} replay={}", property, path.display());
+                            println!("  part={} signature={} (found by libFuzzer)", args[3], f.sig);
+                            println!("  {}", f.msg);
+                            std::process::exit(1);
+                        }
+                        None => {
+                            println!("artifact does not fail the oracle outside the fuzzer build");
+                            std::process::exit(2);
+                        }
+                    }
+                }
+            }
+            std::process::exit(2);
+        }
         "replay" => {
             if args.len() < 4 {
                 usage();
